@@ -80,7 +80,12 @@ CLASSES = (
     "attributes (m_i, alpha) re-assigned between runs and judged against a fresh fluid, np.float64-typed parameters with "
     "float32 grids, standard temperature 0 F, whole-number saturation records in integer fields, rescale_pseudopressure on "
     "the multiphase column, extra entries in the densities mapping (rho_ref ...), n-D schedules whose cell count equals the "
-    "number of stamps"
+    "number of stamps, "
+    "alpha columns in SI units (1e-15), diffusivity hooks replaced on the instance, M exactly 0 in forecast_cum, cold rich gases "
+    "to 14 000 psia, child interpreters with -O / -OO / -X dev, query buffers re-used in place with a handed-out interpolator, "
+    "pressure arrays with +-inf cells, temperature and pressure both arrays, results whose dtype names the caller changes, the "
+    "multiphase transform asked on part of a table, look-ups that recycle an output buffer, re-used objects on grids shifted by "
+    "the span of the previous run, lmfit Parameters in any insertion order, non-default x_max"
 )
 
 os.makedirs(OUT, exist_ok=True)
